@@ -500,6 +500,12 @@ func (group *Group) feedRtpPacket(pkt rtprtcp.RtpPacket) {
 		}
 
 		if !boundaryChecked {
+			if group.sdpCtx == nil {
+				// the sdp of a rtsp publisher reaches the group asynchronously (BaseInSession.SetObserver), and it is
+				// dropped when the input leaves: rtp packets outside of that window cannot be classified, and no
+				// subscriber has been given a sdp yet
+				return
+			}
 			switch group.sdpCtx.GetVideoPayloadTypeBase() {
 			case base.AvPacketPtAvc:
 				boundary = rtprtcp.IsAvcBoundary(pkt)
